@@ -345,13 +345,10 @@ theorem translated_post_is_model (c : Cfg) (s : St) (e : TEvent) (d : EvData) (e
 /-- one round of the translated loop = `popNext` + `enterState` of the model -/
 theorem translated_round (c : Cfg) (s : St) (loc : Loc TEvent EvData String) (q : String)
     (hf : s.failed = none) (hq : s.next = none → loc.v3 = some q) :
-    ∃ loc', ctxEventLoop0 (prims c) (T s, loc) =
-      ((T (enterState c (popNext s loc.v1 q).1 (popNext s loc.v1 q).2.1 (popNext s loc.v1 q).2.2), loc'),
-        (match (enterState c (popNext s loc.v1 q).1 (popNext s loc.v1 q).2.1 (popNext s loc.v1 q).2.2).failed with
-         | some k => Flow.raise k
-         | none =>
-           if (enterState c (popNext s loc.v1 q).1 (popNext s loc.v1 q).2.1 (popNext s loc.v1 q).2.2).next.isSome
-           then Flow.cont else Flow.brk))
+    ∃ loc', ((ctxEventLoop0 (prims c) (T s, loc)).1 =
+        (T (enterState c (popNext s loc.v1 q).1 (popNext s loc.v1 q).2.1 (popNext s loc.v1 q).2.2), loc') ∧
+      RoundEnds (enterState c (popNext s loc.v1 q).1 (popNext s loc.v1 q).2.1 (popNext s loc.v1 q).2.2)
+        (ctxEventLoop0 (prims c) (T s, loc)).2)
       ∧ loc'.v1 = (popNext s loc.v1 q).2.1 ∧ loc'.v3 = some (popNext s loc.v1 q).2.2 := by
   unfold ctxEventLoop0
   cases hn : s.next with
@@ -361,17 +358,17 @@ theorem translated_round (c : Cfg) (s : St) (loc : Loc TEvent EvData String) (q 
     simp only at hq'
     subst hq'
     refine ⟨⟨v0, v1, v2, some q⟩, ?_, by simp [popNext, hn], by simp [popNext, hn]⟩
-    tsimp [T, hn, popNext, enterState]
+    tsimp [T, hn, popNext, enterState, RoundEnds]
     round_tail (runEnter c (s.enter q) q) q (v1.dur)
   | some x =>
     obtain ⟨e', d', q'⟩ := x
     refine ⟨{ loc with v0 := e', v1 := d', v3 := some q' }, ?_, by simp [popNext, hn], by simp [popNext, hn]⟩
     cases hs : s.state with
     | none =>
-      tsimp [T, hn, hf, hs, popNext, enterState, exitCur]
+      tsimp [T, hn, hf, hs, popNext, enterState, exitCur, RoundEnds]
       round_tail (runEnter c ((setCtx (s.setNextEv none) d').enter q') q') q' (d'.dur)
     | some cur =>
-      tsimp [T, hn, hf, hs, popNext, enterState, exitCur]
+      tsimp [T, hn, hf, hs, popNext, enterState, exitCur, RoundEnds]
       round_tail (runEnter c (((setCtx (s.setNextEv none) d').emit (Entry.exit cur d')).enter q') q') q' (d'.dur)
 
 /-- the translated `for _ in range(chainlimit): … else: raise …` = the loop of the model -/
@@ -391,23 +388,33 @@ theorem translated_loop (c : Cfg) : ∀ (n : Nat) (s : St) (loc : Loc TEvent EvD
       .inr ⟨.circuitError, rfl, by simp [loopB], by simp [St.fail, hf], by simp⟩⟩
   | succ n ih =>
     intro s loc q hf hq
-    obtain ⟨loc1, hround, hv1, hv3⟩ := translated_round c s loc q hf hq
+    obtain ⟨loc1, ⟨hst, hends⟩, hv1, hv3⟩ := translated_round c s loc q hf hq
     unfold forRange loopB
-    simp only [hround]
-    generalize enterState c (popNext s loc.v1 q).1 (popNext s loc.v1 q).2.1 (popNext s loc.v1 q).2.2 = s2
+    dsimp only
+    generalize ctxEventLoop0 (prims c) (T s, loc) = r at hst hends ⊢
+    obtain ⟨sl1, fl1⟩ := r
+    simp only at hst hends
+    subst hst
+    generalize enterState c (popNext s loc.v1 q).1 (popNext s loc.v1 q).2.1 (popNext s loc.v1 q).2.2 = s2 at hends ⊢
+    unfold RoundEnds at hends
     cases hf2 : s2.failed with
     | some k =>
+      simp only [hf2] at hends
+      subst hends
       exact ⟨loc1, s2, Flow.raise k, by simp, .inr ⟨k, rfl, by simp [hf2, fail_of_failed s2 k hf2],
         by rw [fail_of_failed s2 k hf2]; exact hf2, fun _ => by simp [hf2]⟩⟩
     | none =>
       cases hn2 : s2.next with
       | some x =>
+        simp only [hf2, hn2, Option.isSome_some, if_true] at hends
         obtain ⟨loc', st', fl, heq, hres⟩ := ih s2 loc1 (popNext s loc.v1 q).2.2 hf2
           (fun h => by rw [hn2] at h; cases h)
-        refine ⟨loc', st', fl, by simp [heq], ?_⟩
+        refine ⟨loc', st', fl, by rcases hends with h | h <;> subst h <;> simp [heq], ?_⟩
         rw [hv1] at hres
         simpa [hf2, hn2] using hres
       | none =>
+        simp only [hf2, hn2, Option.isSome_none, Bool.false_eq_true, if_false] at hends
+        subst hends
         exact ⟨loc1, s2, Flow.next, by simp, .inl ⟨by simp [hf2, hn2], rfl, hf2⟩⟩
 
 theorem translated_try (c : Cfg) (s1 : St) (loc : Loc TEvent EvData String) (q : String)
